@@ -5,7 +5,7 @@ from ..repo import AnalysisError, dotted
 from ..events import all_events, flat_events
 from ..interp import CFG_CLASSES
 from ..names import classify_server_value
-from ..terms import show, is_const
+from ..terms import walk, show, is_const
 
 ASYNC_NAMES = {"callLater", "deferToThread", "callInThread", "callFromThread",
                "inlineCallbacks", "Deferred", "ensureDeferred", "Thread",
@@ -892,3 +892,70 @@ def config_option(t):
         d = t[2][2] if len(t[2]) >= 3 else ("const", None)
         return (t[2][1][1], d)
     return None
+
+
+_sub_cache = {}
+
+
+def import_rule(ctx, prop, rules, new_rule, text, why, minimum=1, only=None):
+    """the obligations of `rules` of property `prop`, restated as `new_rule`
+    of this property: the same rule instances are a necessary condition of
+    both.  `why` says what the breach means for this property."""
+    import importlib
+    from ..report import Ctx
+    ctx.rule(new_rule, text)
+    key = (id(ctx.model), prop, ctx.tier)
+    if key not in _sub_cache:
+        mod = importlib.import_module("sa.rules.%s" % prop.lower())
+        sub = Ctx(ctx.model, prop, ctx.tier)
+        mod.run(sub)
+        _sub_cache[key] = sub
+    sub = _sub_cache[key]
+    n = 0
+    for o in sub.obligations:
+        if o.rule in rules and (only is None or only(o)):
+            n += 1
+            ctx.ob(new_rule, o.construct, o.ok, o.site,
+                   o.detail + ("" if o.ok else " -- " + why), getattr(o, "path", None))
+    ctx.require(new_rule, n, minimum, "instances of %s" % "/".join(rules))
+
+
+def r_remember(ctx, rule, setter, user, why):
+    """the name a connection remembers for a later bare `user` command is set
+    on every path of the `setter` handler on which the operation was carried
+    out (wrote channel state), however the path ends: a side whose row exists
+    must be able to `user` it without naming it again."""
+    from ..events import handler_for, handler_paths, all_events, construct_of
+    from ..report import render_path
+    model = ctx.model
+    ctx.rule(rule, "every path of the %s handler that wrote channel state leaves the name "
+             "the bare %s relies on remembered" % (setter, user))
+    hs = handler_for(model, setter)
+    hu = handler_for(model, user)
+    # the attribute: compared with the named field / tested for None in the user handler
+    attrs = set()
+    for p in handler_paths(model, hu):
+        for (t, b, site) in p.pc:
+            for x in walk(t):
+                if isinstance(x, tuple) and x and x[0] == "isnone" and x[1][0] == "attr" and \
+                        x[1][1][0] == "obj" and x[1][1][1] == "WebSocketServer":
+                    attrs.add(x[1][2])
+    n = 0
+    for a in sorted(attrs):
+        for p in handler_paths(model, hs):
+            evs = [e for e, _ in all_events(p)]
+            wrote = [e for e in evs if e["k"] == "sql" and e["db"] == "chan" and
+                     e["stmt"].kind in ("insert", "update", "delete")]
+            if not wrote or p.outcome.kind != "return":
+                continue
+            n += 1
+            sets = [e for e in evs if e["k"] == "setattr" and e["attr"] == a and
+                    e["obj"][0] == "obj" and e["obj"][1] == "WebSocketServer" and
+                    e["value"] != ("const", None)]
+            ok = bool(sets)
+            ctx.ob(rule, "%s: %s is remembered on a path that wrote %s" % (
+                hs, a, wrote[0]["stmt"].table), ok, wrote[0],
+                "" if ok else "%s has written channel state (%s) on a path that leaves %s "
+                "unset (the command is then refused): %s" % (hs, construct_of(wrote[0]), a, why),
+                None if ok else render_path(p.events))
+    ctx.require(rule, n, 2, "state-changing paths of the %s handler" % setter)
